@@ -1,3 +1,7 @@
+// The library's go.mod says go 1.22: in a program whose main module says the same, timer channels are still buffered and Reset/Stop do
+// not discard a tick that has fired (GODEBUG asynctimerchan=1). This module says go 1.23, so the check asks for the library's own setting.
+//
+//go:debug asynctimerchan=1
 package c14
 
 import (
@@ -652,6 +656,31 @@ func TestQueuedCallersKeepTheirTimeout(t *testing.T) {
 		for w := 0; w < 5; w++ {
 			c.Workers = append(c.Workers, []call{{FC: 3, Plan: uint64(w), DelayUs: 100000}})
 		}
+		ok := false
+		for attempt := 0; attempt < 3 && !ok; attempt++ {
+			if r := runConc(c); r.Err == nil {
+				ok = true
+			}
+		}
+		if !ok && !chkConc.Eval(t, c) {
+			return
+		}
+	}
+}
+
+// TestLateSuccessThenNextCall: a serial port whose reads block for up to 100 ms, a total read timeout of 150 ms, and a device that
+// takes 230 ms for the first reply: the read that brings the reply starts before the total timeout and ends after it, so the first
+// call may succeed late (or time out, if the machine is slow). Whatever it did, it has ended; the calls that follow on the same client
+// get their own time and their own replies. (Real time: a failure is reported only if it repeats three times.)
+func TestLateSuccessThenNextCall(t *testing.T) {
+	idx := 0
+	for _, kind := range []string{"serial", "serial-flush"} {
+		idx++
+		if !harness.Mine(idx) {
+			continue
+		}
+		c := concCase{Kind: kind, Procs: 16, DevSeed: uint64(idx) + harness.Seed(), ReadTimeoutMs: 150, ReadBlockUs: 100000,
+			Workers: [][]call{{{FC: 3, Plan: 0, DelayUs: 230000}, {FC: 3, Plan: 0}, {FC: 4, Plan: 0}, {FC: 3, Plan: 0}}}}
 		ok := false
 		for attempt := 0; attempt < 3 && !ok; attempt++ {
 			if r := runConc(c); r.Err == nil {
